@@ -14,7 +14,8 @@ VARIABLES rid, l
 tvars == <<vars, rid, l>>
 
 TInit == /\ rid \in 1..Len(Runs) /\ l = 1
-         /\ Files = Runs[rid].files /\ NProc = Runs[rid].nproc
+         /\ Files = Runs[rid].files /\ NProc = Runs[rid].nproc /\ opts = <<Runs[rid].opts[1], Runs[rid].opts[2]>>
+         /\ wrote = [f \in FileSet |-> <<>>]
          /\ nextChunk = 1
          /\ cur = [w \in Workers |-> <<0, 0>>]
          /\ chunkN = [c \in 1..NChunks |-> 0]
